@@ -17,7 +17,6 @@ From V Require Model.Date Model.Time.
 From V Require Proofs.C06 Judge.C17.
 Import ListNotations.
 Open Scope Z_scope.
-Set Default Timeout 60.
 Ltac Zify.zify_post_hook ::= Z.to_euclidean_division_equations.
 
 Notation m_trunc := V.Judge.C17.m_trunc.
